@@ -1,6 +1,7 @@
 import AgModel.Proofs.RepairRun
 import AgModel.Proofs.BlockstoreInv
 import AgModel.Proofs.BlockstoreFlag
+import AgModel.Proofs.BlockstoreType
 /-!
 The blockstore invariant at slot / store level, its preservation by `add_shred_from_repair`,
 `add_shred_from_dissemination` and by every step of the repair task, and panic-freedom of the
@@ -10,16 +11,20 @@ namespace AgModel.Repair
 open AgModel.Blockstore AgModel.Merkle
 
 /-- **The blockstore invariant of one slot**: the dissemination spot and every repair spot satisfy
-    `BInv`, repair spots belong to the slot, a completed repaired block hashes to its key, and every
-    stored shred's last-slice flag agrees with the last-slice marker of its spot (`FlagInv`). -/
+    `BInv`, repair spots belong to the slot, a completed repaired block hashes to its key, every
+    stored shred's last-slice flag agrees with the last-slice marker of its spot (`FlagInv`) and its data/coding
+    type fits its index (`TyInv`). -/
 structure SInv (sd : SlotData) : Prop where
   dis : BInv sd.dis
   rep : ∀ h b, repGet sd.rep h = some b → BInv b ∧ b.slot = sd.dis.slot ∧ b.cap = sd.dis.cap
   ok : RepOk sd
   flg : FlagInv sd.dis ∧ ∀ h b, repGet sd.rep h = some b → FlagInv b
+  /-- (D15 `fix:`) every stored shred has the data/coding type that fits its index -/
+  typ : TyInv sd.dis ∧ ∀ h b, repGet sd.rep h = some b → TyInv b
 
 theorem sinv_new (cap slot : Nat) : SInv (SlotData.new cap slot) := by
-  refine ⟨binv_new cap slot, ?_, repOk_new cap slot, flagInv_new cap slot, ?_⟩
+  refine ⟨binv_new cap slot, ?_, repOk_new cap slot, ⟨flagInv_new cap slot, ?_⟩, ⟨tyInv_new cap slot, ?_⟩⟩
+  · intro h b hb; simp [SlotData.new, repGet] at hb
   · intro h b hb; simp [SlotData.new, repGet] at hb
   · intro h b hb; simp [SlotData.new, repGet] at hb
 
@@ -48,14 +53,19 @@ theorem addRepair_sinv (env : Nat → Content) (sd : SlotData) (h : H) (s : Shre
     cases hg : repGet sd.rep h with
     | none => exact ⟨binv_new _ _, rfl, rfl⟩
     | some b => exact hinv.rep h b hg
-  obtain ⟨hb', hnp⟩ := addShred_binv env _ s hspot.1
-  obtain ⟨hslot, hcap⟩ := addShred_slot_cap env ((repGet sd.rep h).getD (BlockData.new sd.dis.cap sd.dis.slot)) s
+  obtain ⟨hb', hnp⟩ := addShredF_binv env _ s hspot.1
+  obtain ⟨hslot, hcap⟩ := addShredF_slot_cap env ((repGet sd.rep h).getD (BlockData.new sd.dis.cap sd.dis.slot)) s
   have hspotf : FlagInv ((repGet sd.rep h).getD (BlockData.new sd.dis.cap sd.dis.slot)) := by
     cases hg : repGet sd.rep h with
     | none => exact flagInv_new _ _
     | some b => exact hinv.flg.2 h b hg
-  have hf' := addShred_flagInv env _ s hspot.1 hspotf
-  refine ⟨⟨?_, ?_, addRepair_repOk env sd h s hinv.ok, ?_, ?_⟩, ?_⟩
+  have hf' := addShredF_flagInv env _ s hspot.1 hspotf
+  have hspott : TyInv ((repGet sd.rep h).getD (BlockData.new sd.dis.cap sd.dis.slot)) := by
+    cases hg : repGet sd.rep h with
+    | none => exact tyInv_new _ _
+    | some b => exact hinv.typ.2 h b hg
+  have ht' := addShred_tyInv env _ s hspott
+  refine ⟨⟨?_, ?_, addRepair_repOk env sd h s hinv.ok, ⟨?_, ?_⟩, ⟨?_, ?_⟩⟩, ?_⟩
   · rw [addRepair_dis]; exact hinv.dis
   · intro h' b hg
     rw [addRepair_dis]
@@ -101,14 +111,36 @@ theorem addRepair_sinv (env : Nat → Content) (sd : SlotData) (h : H) (s : Shre
         · exact hinv.flg.2 h' b hg
       · exact hset b hg
     · exact hset b hg
+  · rw [addRepair_dis]; exact hinv.typ.1
+  · intro h' b hg
+    unfold addRepair at hg
+    simp only [flagIfBad_rep] at hg
+    unfold fileRepair at hg
+    have hset : ∀ b0, repGet (repSet sd.rep h (addShred env ((repGet sd.rep h).getD (BlockData.new sd.dis.cap sd.dis.slot)) s).1) h' = some b0 →
+        TyInv b0 := by
+      intro b0 hb0
+      rw [repGet_repSet] at hb0
+      split at hb0
+      · simp only [Option.some.injEq] at hb0; subst hb0
+        exact ht'
+      · exact hinv.typ.2 h' b0 hb0
+    split at hg
+    · split at hg
+      · simp only at hg
+        rw [repGet_repDel] at hg
+        split at hg
+        · simp at hg
+        · exact hinv.typ.2 h' b hg
+      · exact hset b hg
+    · exact hset b hg
   · rcases addRepair_res env sd h s with hr | hr
     · rw [hr]; exact hnp
     · rw [hr]; simp
 
 theorem addDissem_sinv (env : Nat → Content) (sd : SlotData) (s : Shred) (hinv : SInv sd) :
     SInv (addDissem env sd s).1 ∧ (addDissem env sd s).2.1 ≠ .panic := by
-  obtain ⟨hb', hnp⟩ := addShred_binv env sd.dis s hinv.dis
-  obtain ⟨hslot, hcap⟩ := addShred_slot_cap env sd.dis s
+  obtain ⟨hb', hnp⟩ := addShredF_binv env sd.dis s hinv.dis
+  obtain ⟨hslot, hcap⟩ := addShredF_slot_cap env sd.dis s
   by_cases hm : sd.misbehaved = true
   · rw [addDissem_flagged env sd s hm]; exact ⟨hinv, by simp⟩
   · have hm' : sd.misbehaved = false := by simpa using hm
@@ -121,8 +153,10 @@ theorem addDissem_sinv (env : Nat → Content) (sd : SlotData) (s : Shred) (hinv
       · exact ⟨flag_dis _, flag_rep' _, rfl⟩
       · exact ⟨rfl, rfl, rfl⟩
     refine ⟨⟨by rw [hdis.1]; exact hb', ?_, hok,
-      by rw [hdis.1]; exact addShred_flagInv env sd.dis s hinv.dis hinv.flg.1,
-      by intro h b hg; rw [hdis.2.1] at hg; exact hinv.flg.2 h b hg⟩, by rw [hdis.2.2]; exact hnp⟩
+      ⟨by rw [hdis.1]; exact addShredF_flagInv env sd.dis s hinv.dis hinv.flg.1,
+       by intro h b hg; rw [hdis.2.1] at hg; exact hinv.flg.2 h b hg⟩,
+      ⟨by rw [hdis.1]; exact addShred_tyInv env sd.dis s hinv.typ.1,
+       by intro h b hg; rw [hdis.2.1] at hg; exact hinv.typ.2 h b hg⟩⟩, by rw [hdis.2.2]; exact hnp⟩
     intro h b hg
     rw [hdis.2.1] at hg
     rw [hdis.1]
@@ -140,7 +174,8 @@ theorem addOwn_sinv (sd : SlotData) (c : Commitment) (sz : Nat) (parent : Option
     obtain ⟨b, r⟩ := res
     cases r <;> rfl
   rw [e]
-  refine ⟨h1, ?_, ?_, addOwnSlice_flagInv sd.dis c sz parent txs hinv.flg.1 hl, hinv.flg.2⟩
+  refine ⟨h1, ?_, ?_, ⟨addOwnSlice_flagInv sd.dis c sz parent txs hinv.flg.1 hl, hinv.flg.2⟩,
+    ⟨addOwnSlice_tyInv sd.dis c sz parent txs hinv.typ.1 hl, hinv.typ.2⟩⟩
   · intro h b hg
     obtain ⟨a1, a2, a3⟩ := hinv.rep h b hg
     exact ⟨a1, a2.trans h2.symm, a3.trans h3.symm⟩
@@ -176,8 +211,8 @@ theorem storeInv_set (env : Nat → Content) (cap : Nat) (store : Store) (b : Bi
 
 /-- a block announced by `add_shred` has its parent in an earlier slot than the block data's own -/
 theorem addShred_block_parent (env : Nat → Content) (b : BlockData) (s : Shred) (info : BlockInfo)
-    (h : (addShred env b s).2 = .ev (.block info)) : info.parent.1 < b.slot := by
-  have heq : addShred env b s = ((addShred env b s).1, .ev (.block info)) := Prod.ext rfl h
+    (h : (addShredCore env b s).2 = .ev (.block info)) : info.parent.1 < b.slot := by
+  have heq : addShredCore env b s = ((addShredCore env b s).1, .ev (.block info)) := Prod.ext rfl h
   obtain ⟨b1, hb1⟩ := addShred_block_origin env b _ s info heq
   obtain ⟨_, _, _, _, _, _, _, _, _, _, hslot, _⟩ := tryReconstructBlock_complete b1 _ info hb1
   have h1 : (tryReconstructBlock b1).1.slot = b1.slot := by
@@ -230,8 +265,8 @@ theorem handleResponse_no_panic (env : Nat → Content) (cap : Nat) (st : Repair
     cases r with
     | shred b i j =>
       simp only [Resp.req] at hout
-      obtain ⟨rfl, hsl, hidx, hroot, hlast, rfl⟩ := valid_shred_eq st b i j slot s sigOk hv
-      rw [handle_shred_valid env cap st store b i j s hout hsl hidx hroot hlast]
+      obtain ⟨rfl, hsl, hidx, hroot, hlast, hty, rfl⟩ := valid_shred_eq st b i j slot s sigOk hv
+      rw [handle_shred_valid env cap st store b i j s hout hsl hidx hroot hlast hty]
       refine ⟨?_, storeInv_set env cap store b s hs⟩
       obtain ⟨hsi, hslot, _⟩ := hs b.slot
       have hnp := (addRepair_sinv env _ b.hash s hsi).2
@@ -247,7 +282,7 @@ theorem handleResponse_no_panic (env : Nat → Content) (cap : Nat) (st : Repair
           have hh := repair_announces_requested_hash env _ b.hash s info hres
           have hpar : info.parent.1 < b.slot := by
             rcases addRepair_res env (storeGet cap store b.slot) b.hash s with hr | hr
-            · rw [hres] at hr
+            · rw [hres, addShred_of_ty _ _ s hty] at hr
               have := addShred_block_parent env _ s info hr.symm
               have hspot : ((repGet (storeGet cap store b.slot).rep b.hash).getD
                   (BlockData.new (storeGet cap store b.slot).dis.cap (storeGet cap store b.slot).dis.slot)).slot = b.slot := by
